@@ -178,6 +178,7 @@ class FnSpec:
         self.replace = []    # (k, pattern, [lines])
         self.unsafe_stub = {}  # k -> [lines]
         self.tail = []
+        self.calls = []
         self.sig_only = False
 
 
@@ -286,6 +287,12 @@ class Generator:
                     raise ExtractError("%s:%d: bad directive %s" % (path, i + 1, s))
                 cur = []
                 getattr(spec, m.group(1)).append((int(m.group(2)), m.group(3), cur))
+            elif s.startswith("//@call "):
+                # //@call k fname : replace the k-th call `fname(args..)` (or `recv.fname(args..)`) by the
+                # template in the section body; $1..$n are the ACTUAL argument texts, $0 the receiver
+                ps = s.split()
+                cur = []
+                spec.calls.append((int(ps[1]), ps[2], cur))
             elif s.startswith("//@unsafe "):
                 k = int(s.split()[1])
                 cur = []
@@ -516,6 +523,8 @@ class Generator:
         body = self.rw_ptr_swap(body, spec)
         body = self.rw_ref_wild(body)
         body = self.rw_unsafe_stubs(body, spec)
+        for k, fname, lines in spec.calls:
+            body = self.apply_call(body, k, fname, lines, spec)
         for k, pat, lines in spec.replace:
             body = self.apply_replace(body, k, pat, lines, spec)
         body = self.apply_loops(body, spec)
@@ -683,6 +692,40 @@ class Generator:
         if missing:
             raise ExtractError("lost anchor: unsafe block #%s in %s" % (missing, spec.name))
         return out
+
+    def apply_call(self, body, k, fname, lines, spec):
+        occ = []
+        for i, t in enumerate(body):
+            if t.kind == "ident" and t.text == fname:
+                j = next_code(body, i)
+                if j < len(body) and body[j].text == "(":
+                    occ.append((i, j))
+        if len(occ) < k:
+            raise ExtractError("lost anchor: call `%s` #%d in %s" % (fname, k, spec.name))
+        i, j = occ[k - 1]
+        q = match_close_full(body, j)
+        args = [text_of(a).strip() for a in split_args(body[j + 1:q])]
+        # receiver: `X.fname(` -> walk back over a simple path expression
+        start = i
+        recv = ""
+        p = prev_code(body, i)
+        if p >= 0 and body[p].text == ".":
+            e = p
+            b = prev_code(body, p)
+            while b >= 0 and (body[b].kind == "ident" or body[b].text in (".",)):
+                nb = prev_code(body, b)
+                if body[b].kind == "ident" and nb >= 0 and body[nb].text not in (".",):
+                    break
+                b = nb
+            recv = text_of(body[b:e]).strip()
+            start = b
+        tpl = "\n".join(lines).strip("\n")
+        tpl = tpl.replace("$0", recv)
+        for n in range(len(args), 0, -1):
+            tpl = tpl.replace("$%d" % n, args[n - 1])
+        nl = text_of(body[start:q + 1]).count("\n")
+        self.count("R13-call-stub:" + fname)
+        return body[:start] + [synth(tpl + "\n" * max(0, nl - tpl.count("\n")), body[start].line)] + body[q + 1:]
 
     def apply_replace(self, body, k, pat, lines, spec):
         pt = code_texts(pat)
